@@ -1,7 +1,9 @@
 //! mjv — bounded-exhaustive checks for the minijinja properties C01..C20.
 mod core;
 mod big;
+mod c01;
 mod c04;
+mod crash;
 mod c07;
 mod c08;
 mod vals;
@@ -24,7 +26,13 @@ fn main() {
         std::process::exit(2);
     }
     let args = core::parse_args(&argv[2..]);
+    if !argv.iter().any(|a| a == "--child") {
+        // children of the supervised engines inherit the effective tier through the environment
+        std::env::set_var("VERIF_TIER_EFFECTIVE", args.tier.name());
+        std::env::set_var("VERIF_TIER", args.tier.name());
+    }
     let code = match argv[1].to_ascii_lowercase().as_str() {
+        "c01" => c01::main(args),
         "c04" => c04::main(args),
         "c07" => c07::main(args),
         "c08" => c08::main(args),
